@@ -13,7 +13,8 @@
    Needed f gl = R1, plus (TrueType) all composite components, recursively. *)
 From Coq Require Import List NArith ZArith Bool Arith.
 From Common Require Import Bytes Outcome.
-From C10 Require Import Model Spec Proofs_main Proofs_props.
+From Coq Require Import Permutation.
+From C10 Require Import Model Spec Util Proofs_main Proofs_props Proofs_spec.
 Import ListNotations.
 Local Open Scope N_scope.
 
@@ -161,3 +162,21 @@ Theorem cff_subset_glyph_i_is_original : forall f gl, wf_fontb f = true -> wf_li
     f_enc (r_font r) = option_map (map (pos0 gl)) (f_enc f).
 Proof. exact M_cff_subset_spec. Qed.
 Print Assumptions cff_subset_glyph_i_is_original.
+
+(* The executable specification S_subset (Spec.v; what the driver compares the
+   mirror model with on every case): its glyph list is the given list followed
+   by exactly the other needed glyphs in increasing order ... *)
+Theorem spec_selection : forall f gl, wf_fontb f = true -> wf_listb f gl = true ->
+  NoDup (S_sel f gl) /\
+  (exists extras, S_sel f gl = gl ++ extras /\ sorted_by (fun g => g) extras) /\
+  (forall g, In g (S_sel f gl) <-> Needed f gl g).
+Proof. exact S_sel_spec. Qed.
+Print Assumptions spec_selection.
+
+(* ... and the mirror model, for every iteration order, selects the same
+   glyphs: same prefix, the appended extras a permutation of the sorted ones. *)
+Theorem selection_matches_spec : forall orc f gl, wf_fontb f = true -> wf_listb f gl = true ->
+  exists r, M_subset orc f gl = Ok r /\ Permutation (r_sel r) (S_sel f gl) /\
+    exists e e', r_sel r = gl ++ e /\ S_sel f gl = gl ++ e' /\ Permutation e e' /\ sorted_by (fun g => g) e'.
+Proof. exact Proofs_spec.selection_matches_spec. Qed.
+Print Assumptions selection_matches_spec.
